@@ -4,7 +4,7 @@
    loop iterations with worker completions.  `run` is the state of Model/Orch.v after the trace. *)
 From Coq Require Import List Bool Arith.
 Import ListNotations.
-Require Import MV.Model.Orch MV.Proofs.OrchP.
+Require Import MV.Model.Orch MV.Model.OrchCheck MV.Model.OrchMid MV.Proofs.OrchP MV.Proofs.OrchMidP.
 
 (* Order: whenever a step was started, all its required uuids were finished, and every uuid finished at that moment
    had been produced by a step whose execution had already completed. *)
@@ -50,3 +50,49 @@ Example C01_diamond :
   let st := run false false (fun _ => false) ex_plan ex_trace in
   rev (started_ids st) = [0; 1; 2; 3] /\ loop_head ex_plan st = ExitNormal /\ results st = [3] /\ wf_plan_auto ex_plan = true.
 Proof. vm_compute. repeat split. Qed.
+
+(* ---- worker events that land INSIDE a pass of the loop (Model/OrchMid.v) ----
+   A failure of an already started step that lands after k visits of a pass gives the same state as the whole pass followed by
+   the failure: nothing is started, finished or collected because of it (the for loop does not look at the error register, and a
+   failed worker does not report completion).  For every plan, every k, every state. *)
+Theorem C01_midpass_failure_commutes : forall stream fails p k s st,
+  mem s (started_ids (mid_state fails p k st)) = true ->
+  scan_mid stream fails p k s false st = worker_done (scan stream false fails p st) s false.
+Proof. exact midpass_failure_commutes_l. Qed.
+Print Assumptions C01_midpass_failure_commutes.
+
+Theorem C01_midpass_failure_starts_nothing : forall stream fails p k s st,
+  mem s (started_ids (mid_state fails p k st)) = true ->
+  let a := scan_mid stream fails p k s false st in let b := scan stream false fails p st in
+  started a = started b /\ finished a = finished b /\ done a = done b /\ results a = results b.
+Proof. exact midpass_failure_starts_nothing_l. Qed.
+Print Assumptions C01_midpass_failure_starts_nothing.
+
+(* every trace with mid-pass failures is a trace of Model/Orch.v, so the order property holds for it *)
+Theorem C01_fine_trace_is_orch_trace : forall stream fails p es, fvalid stream fails p es init = true ->
+  frun stream fails p es init = run stream false fails p (coarsen es).
+Proof. exact fine_trace_coarse_l. Qed.
+Print Assumptions C01_fine_trace_is_orch_trace.
+
+Theorem C01_fine_start_requires : forall stream fails p es e, fvalid stream fails p es init = true ->
+  In e (started (frun stream fails p es init)) -> start_ok p e.
+Proof. exact fine_start_requires_l. Qed.
+Print Assumptions C01_fine_start_requires.
+
+(* meaning of the checker the gated THREADING histories are replayed with: every step whose execution was observed to begin
+   was started by the model with its requirements finished by completed steps *)
+Theorem C01_gated_history_sound : forall p rounds o begins,
+  chk_gated_m (p, (rounds, o, begins)) = true ->
+  forall s, In s begins -> exists e, fst e = s /\ start_ok p e.
+Proof. exact chk_gated_m_sound_l. Qed.
+Print Assumptions C01_gated_history_sound.
+
+(* not vacuous, and what the theorem excludes: if a failing worker also reported completion (both registers set), the dependent
+   step of a two-step chain is started in the same pass; in the model it is not *)
+Example C01_fail_and_done_starts_dependent :
+  let st0 := scan false false (fun _ => false) two_chain init in
+  let mid := fold_left (visit false (fun _ => false)) (firstn 0 two_chain) st0 in
+  let bad := fold_left (visit false (fun _ => false)) (skipn 0 two_chain) (worker_fail_and_done mid 0) in
+  started_ids bad = [1; 0] /\ failed bad = [0] /\
+  started_ids (scan_mid false (fun _ => false) two_chain 0 0 false st0) = [0].
+Proof. exact fail_and_done_starts_dependent. Qed.
